@@ -26,7 +26,7 @@ def run(res, pool, tier, seed):
                                     BODIES2={"cube", "tet2", "octa", "sq", "triObl", "hexObl", "prism"}, T=1, SEED=sd, NSHARD=6 if tier == "quick" else 1)))
     engine.run_jobs(res, jobs, pool)
     import traces
-    traces.run_for(res, ["unit_tests", "driver", "sessions"] if tier != "quick" else ["unit_tests", "sessions"], {"C03"}, seed=seed + 2, nsessions=2500)
+    traces.run_for(res, ["unit_tests", "driver", "sessions"] if tier != "quick" else ["unit_tests", "sessions"], {"C03"}, seed=seed + 2, nsessions=300 if tier == "quick" else 2500)
 
 
 def replay_case(case, tag, rng, tier):
